@@ -3,7 +3,7 @@ CONSTANTS
   Pick <- PickAll
   MNames = {"R1"}
   Conts = {FALSE}
-  Decos <- DecosSmall
+  Decos <- DecosFour
   RootDecos <- RootDecosSmall
   Fan = 2
   RootFan = 2
